@@ -304,6 +304,29 @@ theorem heap_set_objective (h : Heap) (d m q v l o : Nat) (cs : List Nat) (hm : 
     (∀ a, a ≠ o → a ≠ v → (setObjective h d m false remap m').cell a = h.cell a) :=
   setObjective_spec hm hd hdis ho remap m'
 
+/-- … also for an object-dtype BQM: `BinaryQuadraticModel(objective, dtype=self.dtype)` makes a temporary out of new cells, which is what is
+    copied into the objective cell; the caller's model is never written -/
+theorem heap_set_objective_object_dtype (h : Heap) (d m q v l o : Nat) (cs : List Nat) (hm : Born 0 h m) (hd : CShape h d q v l o cs)
+    (ho : o < h.next ∧ o ≠ d ∧ o ≠ q ∧ o ≠ v) (hdis : ∀ x ∈ [m, cppOf h m, varsOf h m], x ≠ o ∧ x ≠ v)
+    (remap : List Rat → List Rat) (m' : Merge) :
+    coeffsAt (setObjective h d m true remap m') o = remap (m'.u [] (obs h m).1) ∧
+    obs (setObjective h d m true remap m') m = obs h m ∧
+    (∀ a, a < h.next → a ≠ o → a ≠ v → (setObjective h d m true remap m').cell a = h.cell a) :=
+  setObjective_object_spec hm hd ho hdis remap m'
+
+/-- **`add_constraint(model, copy=True)` end to end** on any well-formed CQM and any model sharing no cell with it: the CQM stays well-formed
+    and separate from the model; afterwards ANY history of in-place edits of the source model leaves the CQM (objective, every constraint
+    incl. the new one, variables, labels) reading the same, and ANY history of in-place edits of the CQM leaves the source model reading
+    what it read before the call -/
+theorem heap_add_copy_then_histories (h : Heap) (d m : Nat) (hg : CGood h d) (hm : Born 0 h m)
+    (hdis : m ∉ cfp h d ∧ cppOf h m ∉ cfp h d ∧ varsOf h m ∉ cfp h d)
+    (remap : List Rat → List Rat) (m' : Merge) (lab : List Nat → List Nat) (es : List Edit) (ces : List CEdit) :
+    CGood (cyAddConstraintFromModel h d m true remap m' lab).1 d ∧
+    cobs (es.foldl (fun acc e => e.run acc m) (cyAddConstraintFromModel h d m true remap m' lab).1) d =
+      cobs (cyAddConstraintFromModel h d m true remap m' lab).1 d ∧
+    obs (ces.foldl (fun acc e => e.run acc d) (cyAddConstraintFromModel h d m true remap m' lab).1) m = obs h m :=
+  ⟨(cyAdd_copy_separate hg hm hdis remap m' lab).1, cyAdd_copy_then_histories hg hm hdis remap m' lab es ces⟩
+
 /-- expression views hold no contents of their own: `cqm.objective` evaluates `&parent.cppcqm.objective` at every access, a
     `ConstraintView` dereferences its weak pointer — which is valid exactly while the constraint is in the parent's vector — so
     whatever the parent's cells hold after any edit is what the view reads, and a write through the view is a write of the parent's cell -/
